@@ -281,6 +281,8 @@ def make_value(spec, ent, ws, loc, attr):
         cur = getattr(ent, attr)
     if k == "flip":
         return not bool(cur)
+    if k == "wsname":
+        return ws.name
     if k in ("str", "float", "int", "list", "dict"):
         return spec["v"]
     if k == "pick":
@@ -525,9 +527,13 @@ def drive(case, work):
                     rec["err"] = f"{type(e).__name__}: {e}"[:200]
                 obs["steps"].append(rec)
             s1 = snapshot(ent, snap)
-        with Workspace(path, mode="r") as ws:
-            ent = find(ws, loc)
-            s2 = snapshot(ent, snap)
+        try:
+            with Workspace(path, mode="r") as ws:
+                ent = find(ws, loc)
+                s2 = snapshot(ent, snap)
+        except Exception as e:  # noqa: BLE001 - a file that can no longer be read is an observation
+            obs["reopen_failed"] = f"{type(e).__name__}: {e}"[:200]
+            s2 = {a: {"unreadable": True} for a in snap}
         raw = raw_scalars(path, case["kind"], loc, case.get("amap", {}))
     finally:
         if os.path.exists(path):
